@@ -20,6 +20,7 @@ CONFIG = {
                  "cmbbs.PasswdUpdateUserLevel2 + passwdCheckPasswd2", "types.BinaryRead/BinaryWrite/BinWrite on the record types",
                  "ptttype.UID.IsValid/ToUIDInStore",
                  "histories: failing record/field writes (ENOSPC, EFBIG, EBADF, encoder error) followed by field updates, whole-record writes and cmsys.AppendRecord(.post)",
+                 "ptt.NewBoard -> addBoardRecord on .BRD (vacated slot: SubstituteRecord at bid-1; none: AppendRecord)",
                  "fav.FavRaw.Save/WriteFavrec board entries (types.BinWrite), sequentially and by several users at the same time (interleaving semantics of encode/write steps)"],
     "assumptions": [
         "two build configurations exist (default tags, -tags docker); a further configuration file would need a third Gen/Layout*.lean",
